@@ -86,7 +86,8 @@ def confirm(patch, demo):
         out["suite_with_change"] = o.strip().splitlines()[-1][:120]
         out["suite_passes"] = rc == 0
         rc, o = sh("%s %s" % (PY, demo), cwd=repo,
-                   env={"PYTHONPATH": os.path.join(repo, "src")})
+                   env={"PYTHONPATH": os.path.join(repo, "src"),
+                        "DECIMALFP_FORCE_PYTHON_IMPL": "1"})
         out["demo_with_change_exit"] = rc
         out["demo_with_change_tail"] = o.strip().splitlines()[-1][:300] \
             if o.strip() else ""
@@ -95,7 +96,8 @@ def confirm(patch, demo):
     d, repo = scratch_repo(None)
     try:
         rc, o = sh("%s %s" % (PY, demo), cwd=repo,
-                   env={"PYTHONPATH": os.path.join(repo, "src")})
+                   env={"PYTHONPATH": os.path.join(repo, "src"),
+                        "DECIMALFP_FORCE_PYTHON_IMPL": "1"})
         out["demo_without_change_exit"] = rc
     finally:
         shutil.rmtree(d, ignore_errors=True)
